@@ -326,12 +326,42 @@ def gen_options(ctx, rnd):
     return {k: v for k, v in o.items() if DEFAULT_OPTS.get(k) != v}
 
 
+def dependent_glyphs(ctx):
+    """glyphs whose outline refers to other glyphs: glyf composites and CFF accent building (endchar with adx ady bchar achar)"""
+    if not hasattr(ctx, "_dependents"):
+        out = []
+        try:
+            if "glyf" in ctx.font:
+                glyf = ctx.font["glyf"]
+                out = [g for g in ctx.order if glyf[g].isComposite()]
+            elif "CFF " in ctx.font:
+                cs = ctx.font["CFF "].cff[0].CharStrings
+                for g in ctx.order:
+                    c = cs[g]
+                    c.decompile()
+                    p = c.program
+                    if len(p) >= 5 and p[-1] == "endchar" and all(not isinstance(t, str) for t in p[-5:-1]):
+                        out.append(g)
+        except Exception:
+            out = []
+        ctx._dependents = out
+    return ctx._dependents
+
+
 def gen_cases(fid, seed, n):
     ctx = get_ctx(fid)
     cases = []
     for i in range(n):
         rnd = random.Random(subseed(seed, "case", fid, i))
         req = gen_request(ctx, rnd)
+        if i == 0 and dependent_glyphs(ctx):
+            # one request per font that asks for a dependent glyph alone (by name or by character): what it is built from
+            # has to come along through the closure
+            g = rnd.choice(dependent_glyphs(ctx))
+            us = ctx.rcmap.get(ctx.name2gid[g])
+            req = dict(unicodes=[rnd.choice(us)] if us and rnd.random() < 0.5 else [], glyphs=[], gids=[], text="")
+            if not req["unicodes"]:
+                req["glyphs"] = [g]
         opts = gen_options(ctx, rnd)
         cases.append(dict(fid=fid, req={k: v for k, v in req.items() if v}, opts=opts, pseed=rnd.randrange(1 << 30)))
     return cases
